@@ -367,7 +367,7 @@ class PolyTaylorSeries(PolyGenerator):
                 scale = 1 / abs(cheb_poly(pmax))
                 scale = scale * max_scale
                 print(f"[PolyTaylorSeries] (Cheb) max {scale} is at {pmax}: normalizing")
-                cheb_poly = scale * cheb_poly
+                cheb_poly = np.polynomial.chebyshev.Chebyshev(scale * cheb_poly.coef)
             
             # Determine average error on interval and print. 
             adat = np.linspace(-1, 1, npts)
@@ -392,7 +392,7 @@ class PolyTaylorSeries(PolyGenerator):
                 # employs np.polynomial.chebyshev.poly2cheb(pcoefs)
                 scale = scale * max_scale
                 print(f"[PolyTaylorSeries] max {scale} is at {pmax}: normalizing")
-                the_poly = scale * the_poly
+                the_poly = np.polynomial.Polynomial(scale * the_poly.coef)
             adat = np.linspace(-1, 1, npts)
             pdat = the_poly(adat)
             edat = func(adat)
